@@ -247,6 +247,9 @@ def start(argv):
             bitmap.append(pal[(byte & 0b00001100) >> 2])
             bitmap.append(pal[byte & 0b00000011])
 
+    if len(bitmap) != width * height:
+        sys.exit("Image data has the wrong length.")
+
     with open(args.output_image, "wb") as file:
         w = png.Writer(width, height, palette=coco3_rgb, bitdepth=8)
         w.write_array(file, bitmap)
